@@ -208,7 +208,7 @@ pub fn run_replay(a: &Args) {
                         mism.push(json!({"step":i,"op":"reset","got":"panic"}));
                     }
                 }
-                "avail" if !concat => {
+                "avail" => {
                     let d = db.as_ref().unwrap();
                     let r = guard(|| d.available().map(|n| n.as_str().to_string()).collect::<Vec<String>>());
                     match r {
@@ -314,7 +314,7 @@ pub fn run_stress(a: &Args) {
                             }
                             continue;
                         }
-                        if !concat && rng.chance(1, 9) {
+                        if rng.chance(1, 9) {
                             // the hook events carry the thread and the names returned
                             if guard(|| db.available().count()).is_err() {
                                 panicked.lock().unwrap().push("available() panicked".into());
